@@ -33,14 +33,14 @@ type solverSpec struct {
 var solvers = []solverSpec{
 	{"z3-new", func(t int, f string) []string { return []string{"z3-new", fmt.Sprintf("-T:%d", t/1000+2), "-smt2", f} },
 		func(t int) string {
-			return fmt.Sprintf("(set-option :timeout %d)\n(set-option :produce-models true)\n", t)
+			return fmt.Sprintf("(set-option :timeout %d)\n(set-option :produce-models true)\n", t*12)
 		}},
 	{"cvc5", func(t int, f string) []string {
 		return []string{"cvc5", fmt.Sprintf("--tlimit=%d", t), "--lang=smt2", f}
 	}, func(t int) string { return "(set-option :produce-models true)\n(set-logic ALL)\n" }},
 	{"z3", func(t int, f string) []string { return []string{"z3", fmt.Sprintf("-T:%d", t/1000+2), "-smt2", f} },
 		func(t int) string {
-			return fmt.Sprintf("(set-option :timeout %d)\n(set-option :produce-models true)\n", t)
+			return fmt.Sprintf("(set-option :timeout %d)\n(set-option :produce-models true)\n", t*12)
 		}},
 }
 
@@ -85,10 +85,16 @@ func runOne(ctx context.Context, sp solverSpec, vc *FuncVC, o *Obl, timeoutMs in
 	if os.Getenv("CEDAR_KEEP_SMT") == "" {
 		defer os.Remove(file)
 	}
-	cctx, cancel := context.WithTimeout(ctx, time.Duration(timeoutMs)*time.Millisecond+3*time.Second)
+	// The budget is CPU time, not wall-clock time: when the machine is loaded (several checks running side by side) a
+	// solver still gets its seconds of CPU, so a loaded machine does not turn proofs into time-outs. The solvers' own
+	// (wall-clock) limits and the hard kill are set 12x wider; ulimit -t enforces the real budget.
+	cpuSecs := timeoutMs/1000 + 2
+	wallMs := timeoutMs * 12
+	cctx, cancel := context.WithTimeout(ctx, time.Duration(wallMs)*time.Millisecond+5*time.Second)
 	defer cancel()
-	args := sp.cmd(timeoutMs, file)
-	cmd := exec.CommandContext(cctx, args[0], args[1:]...)
+	args := sp.cmd(wallMs, file)
+	sh := fmt.Sprintf("ulimit -t %d; exec \"$@\"", cpuSecs)
+	cmd := exec.CommandContext(cctx, "bash", append([]string{"-c", sh, "solver"}, args...)...)
 	var out bytes.Buffer
 	cmd.Stdout = &out
 	cmd.Stderr = &out
@@ -107,6 +113,8 @@ func runOne(ctx context.Context, sp solverSpec, vc *FuncVC, o *Obl, timeoutMs in
 	if answer == "error" {
 		if cctx.Err() != nil || strings.Contains(raw, "timeout") || strings.Contains(raw, "interrupted") {
 			answer = "timeout"
+		} else if ps := cmd.ProcessState; ps != nil && !ps.Success() && strings.TrimSpace(raw) == "" {
+			answer = "timeout" // killed by the CPU limit (SIGXCPU/SIGKILL) before printing an answer
 		}
 	}
 	if ctx.Err() != nil && answer == "error" {
